@@ -46,3 +46,17 @@ Definition demo3_pages : list page :=
     pgm 318 2688 [a false (-1) false; a false 2688 false];
     {| pg_off := 358; pg_len := 40; pg_serial := 9; pg_gran := 2700; pg_bos := false; pg_eos := true; pg_cont := false; pg_pkts := [a false 2700 true] |} ].
 Definition demo3 : vfs := open_file demo3_pages [(9, 256, 2048)] 1.
+
+(* two links: the link of demo2 (serial 7, 700 samples) followed by a second link (serial 8, blocks 256/256,
+   200 samples) whose audio spans two pages *)
+Definition demo4_pages : list page :=
+  let a w g e := {| pk_W := Some w; pk_gran := g; pk_eos := e |} in
+  let h g := {| pk_W := None; pk_gran := g; pk_eos := false |} in
+  demo2_pages ++
+  [ {| pg_off := 398; pg_len := 58; pg_serial := 8; pg_gran := 0; pg_bos := true; pg_eos := false; pg_cont := false; pg_pkts := [h 0] |};
+    {| pg_off := 456; pg_len := 100; pg_serial := 8; pg_gran := 0; pg_bos := false; pg_eos := false; pg_cont := false; pg_pkts := [h (-1); h 0] |};
+    {| pg_off := 556; pg_len := 40; pg_serial := 8; pg_gran := 128; pg_bos := false; pg_eos := false; pg_cont := false; pg_pkts := [a false (-1) false; a false 128 false] |};
+    {| pg_off := 596; pg_len := 40; pg_serial := 8; pg_gran := 200; pg_bos := false; pg_eos := true; pg_cont := false; pg_pkts := [a false 200 true] |} ].
+Definition demo4 : vfs := open_file demo4_pages [(7, 64, 512); (8, 256, 256)] 0.
+Definition demo4_nth (k : nat) : page :=
+  nth k demo4_pages {| pg_off := 0; pg_len := 0; pg_serial := 0; pg_gran := 0; pg_bos := false; pg_eos := false; pg_cont := false; pg_pkts := [] |}.
